@@ -530,7 +530,7 @@ impl fmt::Display for MediaPlaylist<'_> {
                         // an old key might be removed:
                         for k in &available_keys {
                             if let ExtXKey(Some(dk)) = k {
-                                if dk.format == decryption_key.format && key != *k {
+                                if dk.has_same_format(&decryption_key) && key != *k {
                                     remove_key = Some(k.clone());
                                     break;
                                 }
@@ -617,7 +617,7 @@ fn parse_media_playlist<'a>(
                         if let ExtXKey(Some(decryption_key)) = &key {
                             for old_key in &available_keys {
                                 if let ExtXKey(Some(old_decryption_key)) = &old_key {
-                                    if old_decryption_key.format == decryption_key.format {
+                                    if old_decryption_key.has_same_format(decryption_key) {
                                         // remove the old key
                                         remove = Some(old_key.clone());
 
